@@ -49,6 +49,7 @@ type Config struct {
 	Indexes    []IndexSpec
 	Ops        []OpKind
 	PreCreate  bool // document 0 exists on every node in the initial state
+	Writers    int  // only nodes < Writers issue local operations (0 = all); the others only receive
 	Workers    int
 	Deadline   time.Time // zero = none; hitting it ends the search with exhaustive=false
 	// RegisterFields / CounterFields name the fields the reference model tracks.
@@ -381,7 +382,7 @@ func (e *Explorer) transitions(s *State) []transition {
 	cfg := &e.Cfg
 	var trs []transition
 	if s.nops < cfg.L {
-		for i := 0; i < cfg.N; i++ {
+		for i := 0; i < cfg.N && (cfg.Writers == 0 || i < cfg.Writers); i++ {
 			for _, op := range cfg.Ops {
 				i, op := i, op
 				trs = append(trs, transition{label: fmt.Sprintf("op n%d %s", i, op.Name), node: i,
